@@ -1,7 +1,7 @@
 #![allow(non_camel_case_types, non_snake_case, dead_code)]
 #[tarpc::service]
 pub trait Rej55 {
-    async fn a_b(a0: i32, a1: String);
-    async fn new(ctx: tarpc::context::Context);
+    async fn a_b(a0: i32, a1: i32);
+    async fn serve() -> String;
 }
 fn main() {}
